@@ -205,6 +205,17 @@ func linOfX(v ssa.Value, sym symNamer, phiRes func(*ssa.Phi) ssa.Value, ov func(
 				}
 			case token.QUO, token.REM, token.SHL, token.SHR, token.AND, token.OR, token.XOR:
 				lx, ly := rec(x.X, d+1), rec(x.Y, d+1)
+				if x.Op == token.QUO && lx.OK && ly.OK && len(ly.Coef) == 0 && ly.K > 1 {
+					// (c*q) / c with q itself a quotient by c (n - n%c = c*(n/c)): exact
+					nx := normRem(lx)
+					if nx.OK && nx.K == 0 && len(nx.Coef) == 1 {
+						for sym, cf := range nx.Coef {
+							if cf == ly.K && strings.HasSuffix(sym, fmt.Sprintf(" / %+d)", ly.K)) {
+								return linSym(sym)
+							}
+						}
+					}
+				}
 				if lx.OK && ly.OK {
 					// truncating division is odd: (-a)/c == -(a/c)
 					if x.Op == token.QUO && len(ly.Coef) == 0 && len(lx.Coef) == 1 && lx.K == 0 {
@@ -341,6 +352,12 @@ func hasIneq(ls []lit, f linForm) bool {
 	for _, l := range ls {
 		if !l.A.Eq && l.Pol && l.A.Form.eq(f) {
 			return true
+		}
+		// g > 0 established and f = g + k with k >= 0: f > 0 as well (i > q gives i - q + 1 > 0)
+		if !l.A.Eq && l.Pol && f.OK && l.A.Form.OK {
+			if d := f.add(l.A.Form, -1); d.OK && len(d.Coef) == 0 && d.K >= 0 {
+				return true
+			}
 		}
 	}
 	return false
